@@ -26,9 +26,9 @@ const CALL_CAP: usize = 1500;
 
 fn plan(tier: Tier) -> Vec<Workload> {
     vec![
-        Workload::new("random", tier.pick(20_000, 400_000)),
-        Workload::new("exhaustive", tier.pick(1_500, 20_000)),
-        Workload::new("stop_assign", tier.pick(10_000, 150_000)),
+        Workload::new("random", tier.pick(40_000, 1_000_000)),
+        Workload::new("exhaustive", tier.pick(4_000, 60_000)),
+        Workload::new("stop_assign", tier.pick(30_000, 500_000)),
     ]
 }
 
